@@ -20,6 +20,16 @@ Streams
                dot labels, label sorting, from_networkx) is the model gio_dot_normalize / gio_from_nx / gio_bip_from_nx
   bad-format   formats that are not valid for the graph type
   cli          graph argument "<format> <file>", "<file>" (extension) and "save" of the command line
+Run first, as a corpus (notes/LARGE_STREAMS.md):
+  huge         more than 65536 / 131072 vertices or edges, a vertex of degree 30000, matrix rows and names of more than
+               65536 characters, by file name / extension / file object / StringIO.  The model's readers are quadratic:
+               the statement is checked directly (read back = written graph; the text, read token by token, describes it)
+  thresholds   vertex numbers, degrees, edge counts, name lengths at 15..1025 (gml / dot at 16, 17, 256, 257); reader texts
+  shapes       empty sides, isolated vertices, dense graphs, graph OBJECTS from every public constructor / generator /
+               conversion (CompleteBipartiteGraph overrides its views), file names with and without a usable extension
+               (autodetect), destinations without a name, graph names outside ASCII (also in a C-locale process)
+  history      one graph object edited through its API (edges in any order, removals, vertex count raised by several) and
+               written after each batch of edits; files read back and edited further
 """
 import io
 import itertools
